@@ -380,7 +380,7 @@ ADDENDA = {
             "character of the text, glued to comments, after a dash continuation and on "
             "later lines of multi-line lexemes, plus every gap of a 38-token label."),
     "C16": ("; soak runs: one instance per parser variant and encoder gets 400 (quick) / "
-            "5000 (thorough) mostly failing calls, each repeated on a fresh instance",
+            "5000 (thorough) mostly failing calls, each repeated on a fresh instance; thorough tier adds coverage-guided atheris histories (texts split out of raw bytes)",
             " Fixed texts include ones that end or fail 45-120 levels deep in nested "
             "sequences, sets and blocks."),
     "C18": ("", " One document in four carries a sequence of reals that are equal in value "
